@@ -441,6 +441,12 @@ def _worker(args):
     prop_mod_name, tier, seed, shard, nshards = args
     setup_path()
     os.environ["FLV_IN_WORKER"] = "1"
+    if os.environ.get("FLV_FAULTHANDLER"):
+        # debugging aid: periodic traceback dump of a long-running shard
+        import faulthandler
+
+        faulthandler.dump_traceback_later(float(os.environ["FLV_FAULTHANDLER"]), repeat=True,
+                                          file=open("/tmp/flv_stack_%d.txt" % os.getpid(), "w"))
     import importlib
 
     t0 = time.time()
